@@ -34,6 +34,8 @@ def event_for(cls, obj, origin):
     wire = bytes(wire)
     if len(wire) > 6000:
         return None
+    out2, wire2, _ = call(lambda o: o.compose(), obj)     # composing is repeatable: the second result is the same bytes
+    again_same = out2 == 'ok' and bytes(wire2) == wire
     back_same = False
     o2, res, _ = call(type(obj).parse_exact_size, wire)
     if o2 == 'ok':
@@ -42,7 +44,7 @@ def event_for(cls, obj, origin):
             back_same = b is not None and json.dumps(norm(b[1]), sort_keys=True) == json.dumps(norm(a), sort_keys=True) and b[0] == kind
         except Exception:  # pylint: disable=broad-except
             back_same = False
-    return {'ev': 'msg', 'kind': kind, 'abs': a, 'wire': list(wire), 'back_same': back_same, 'origin': origin,
+    return {'ev': 'msg', 'kind': kind, 'abs': a, 'wire': list(wire), 'back_same': back_same, 'again_same': again_same, 'origin': origin,
             'cls': type(obj).__name__}
 
 
@@ -177,7 +179,31 @@ def gen_cases(rep):
 def replay_gen(rep):
     """specification -> code: compose(build(abs)) = Enc(abs) and abs(parse(Enc(abs))) = abs, by plain equality"""
     from cryptoparser.tls.subprotocol import TlsHandshakeClientHello
+    import os
+    import time
     cases = gen_cases(rep)
+    skipped = 0
+    # the layout must not depend on the configuration of the machine: a sample of the domain is replayed under other TZ settings
+    saved = os.environ.get('TZ')
+    plan = [('UTC', cases)] + [(tz, rep.rng.sample(cases, 300)) for tz in ('JST-9', 'America/New_York', 'Australia/Lord_Howe')]
+    try:
+        for tz, part in plan:
+            os.environ['TZ'] = tz
+            time.tzset()
+            skipped += replay_cases(rep, part, tz)
+    finally:
+        if saved is None:
+            os.environ.pop('TZ', None)
+        else:
+            os.environ['TZ'] = saved
+        time.tzset()
+    rep.extra['generated_cases'] = len(cases)
+    rep.extra['generated_not_constructible'] = skipped
+    rep.traces += len(cases) - skipped
+
+
+def replay_cases(rep, cases, tz):
+    from cryptoparser.tls.subprotocol import TlsHandshakeClientHello
     skipped = 0
     for c in cases:
         a = c['abs']
@@ -186,13 +212,18 @@ def replay_gen(rep):
         except Exception:  # pylint: disable=broad-except
             skipped += 1        # not constructible (an empty suite list without a signalling suite is below the minimum)
             continue
-        rep.case('gen|' + digest(a))
+        rep.case('gen|%s|%s' % (tz, digest(a)))
         wire = bytes(c['wire'])
         out, got, _ = call(lambda o: o.compose(), hello)
         if out != 'ok' or bytes(got) != wire:
-            rep.violation('TlsHandshakeClientHello|layout-differs-from-specification|generated',
-                          'compose() of a generated client hello differs from the bytes TlsWire prescribes',
-                          {'abs': a, 'expected_hex': wire.hex(), 'got': bytes(got).hex() if out == 'ok' else out})
+            rep.violation('TlsHandshakeClientHello|layout-differs-from-specification|generated' + ('' if tz == 'UTC' else '@TZ'),
+                          'compose() of a generated client hello differs from the bytes TlsWire prescribes (TZ=%s)' % tz,
+                          {'abs': a, 'tz': tz, 'expected_hex': wire.hex(), 'got': bytes(got).hex() if out == 'ok' else out})
+        out, got2, _ = call(lambda o: o.compose(), hello)
+        if out != 'ok' or bytes(got2) != wire:
+            rep.violation('TlsHandshakeClientHello|second-compose-differs|generated',
+                          'composing the same client hello a second time gives other bytes',
+                          {'abs': a, 'expected_hex': wire.hex(), 'got': bytes(got2).hex() if out == 'ok' else out})
         o2, parsed, _ = call(TlsHandshakeClientHello.parse_exact_size, wire)
         back = None
         if o2 == 'ok':
@@ -201,9 +232,7 @@ def replay_gen(rep):
             rep.violation('TlsHandshakeClientHello|conformant-encoding-not-recovered|generated',
                           'parsing the bytes TlsWire prescribes does not give back the encoded field values',
                           {'abs': a, 'wire_hex': wire.hex(), 'parse': o2, 'back': back[1] if back else None})
-    rep.extra['generated_cases'] = len(cases)
-    rep.extra['generated_not_constructible'] = skipped
-    rep.traces += len(cases) - skipped
+    return skipped
 
 
 def collect(rep, thorough):
